@@ -38,6 +38,11 @@ pub trait Backend: Sync + Send {
     fn timer_fires(&self, what: &'static str) -> bool;
     /// SO_RCVTIMEO / SO_SNDTIMEO of a simulated stream
     fn set_timeout(&self, stream: usize, read: bool, timeout: Option<std::time::Duration>) -> io::Result<()>;
+    /// A thread of the code under test is about to sleep for `dur` (simulated time passes; the
+    /// scheduler decides who runs meanwhile).
+    fn slept(&self, _dur: std::time::Duration) {}
+    /// Number of processors the simulated host reports; `None` = ask the real one.
+    fn available_parallelism(&self) -> Option<usize> { None }
     /// The code under test did something the simulator cannot model; the run is abandoned
     /// (reported as a harness error, never as a verdict).
     fn unsupported(&self, what: &str) -> !;
@@ -295,8 +300,25 @@ pub mod sync {
 /// a panic that escapes the thread's closure ends that thread only (as in std) and is what
 /// `JoinHandle::join` returns.
 pub mod thread {
-    pub use shuttle::thread::{current, panicking, park, sleep, yield_now, Result, Thread, ThreadId};
-    pub use std::thread::available_parallelism;
+    pub use shuttle::thread::{current, panicking, park, yield_now, Result, Thread, ThreadId};
+
+    /// std::thread::sleep: a scheduling point; the simulator is told how long the thread is away
+    pub fn sleep(dur: std::time::Duration) {
+        if !std::thread::panicking() {
+            if let Some(b) = crate::verif::backend() {
+                b.slept(dur);
+            }
+        }
+        shuttle::thread::sleep(dur)
+    }
+
+    /// std::thread::available_parallelism: the simulated host's answer when it has one
+    pub fn available_parallelism() -> io::Result<std::num::NonZeroUsize> {
+        if let Some(n) = crate::verif::backend().and_then(|b| b.available_parallelism()).and_then(std::num::NonZeroUsize::new) {
+            return Ok(n);
+        }
+        std::thread::available_parallelism()
+    }
 
     pub fn park_timeout(dur: std::time::Duration) {
         crate::verif::sync_point();
